@@ -63,27 +63,24 @@ func (s *MultipartRequest) UnmarshalBinary(data []byte) error {
 	n += 2
 	n += 4 // for padding
 
-	var req util.Message
 	switch s.Type {
 	case MultipartType_Aggregate:
-		req = s.Body.(*AggregateStatsRequest)
-	case MultipartType_Desc:
-		break
+		s.Body = NewAggregateStatsRequest()
 	case MultipartType_Flow:
-		req = s.Body.(*FlowStatsRequest)
+		s.Body = NewFlowStatsRequest()
 	case MultipartType_Port:
-		req = s.Body.(*PortStatsRequest)
-	case MultipartType_Table:
-		break
+		s.Body = NewPortStatsRequest()
 	case MultipartType_Queue:
-		req = s.Body.(*QueueStatsRequest)
-	case MultipartType_Experimenter:
-		break
+		s.Body = NewQueueStatsRequest()
+	default:
+		// requests without a body (desc, table, port-desc, ...)
+		s.Body = nil
+		return err
 	}
-	if req == nil {
-		return fmt.Errorf("unsupported MultipartRequest type: %d", s.Type)
+	if int(n) > len(data) {
+		return fmt.Errorf("the []byte is too short to unmarshal a full MultipartRequest")
 	}
-	return err
+	return s.Body.UnmarshalBinary(data[n:])
 }
 
 // ofp_multipart_reply 1.3
